@@ -3,7 +3,9 @@
 R31a atomicity: in the coroutine that saves a method, the branch on the stored method version
      (check) and the assignment of the new method to the engine data (act) must not be separated by
      an `await` unless both lie inside one `async with <asyncio.Lock>` region - either lexically, or
-     because every call site of the function is inside such a region (caller-held lock).
+     because every call site of the function is inside such a region (caller-held lock) and awaits the coroutine there
+     directly: handed to asyncio.shield / create_task / ensure_future it outlives the region when the caller is cancelled,
+     the lock is released in the middle of the check-then-write and a queued save passes its own check.
 R31b the rpc to the engine and the write are reachable only under `stored version == submitted version`.
 R31c the accepted path bumps `.version` by exactly 1, exactly once, before the write.
 R31d ownership: EngineData.method is assigned only by the save path (and the constructor).
@@ -79,6 +81,14 @@ def _callers_hold_lock(ctx, f) -> tuple[bool, list[str]]:
     for fn, c in sites:
         pm = parent_map(fn.node)
         locked = _inside(pm, c, _lock_withs(ctx, fn))
+        # the coroutine must run *within* the region: awaited directly. Wrapped in shield / create_task / ensure_future it
+        # keeps running after the awaiting caller was cancelled and the lock released (or is never awaited there at all)
+        par = pm.get(id(c))
+        direct = isinstance(par, ast.Await)
+        if locked and not direct:
+            desc.append(f"{fn.short}:DETACHED ({norm(par)[:60] if par is not None else '?'})")
+            ok = False
+            continue
         desc.append(f"{fn.short}:{'locked' if locked else 'UNLOCKED'}")
         ok = ok and locked
     return ok, desc
